@@ -639,21 +639,27 @@ static void iauth_xquery_config_service(const char *name, const char *type)
 
     /* If not, add it. */
     if (ii == iauth_xquery_services.used) {
+        /* Look for an empty slot. */
+        for (ii = 0; ii < iauth_xquery_services.used; ++ii) {
+            if (!iauth_xquery_services.vec[ii])
+                break;
+        }
+
+        /* The per-client masks have one bit per slot. */
+        if (ii >= 32) {
+            log_message(iauth_xquery_log, LOG_ERROR, "Too many services: ignoring %s (at most 32 can be used at a time).", name);
+            return;
+        }
+
         stats.n_srv_allocs++;
         srv = xmalloc(sizeof(*srv) + strlen(name));
         strcpy(srv->name, name);
         srv->epoch = ++iauth_xquery_epoch;
 
-        /* Try to insert it in an empty slot. */
-        for (ii = 0; ii < iauth_xquery_services.used; ++ii) {
-            if (!iauth_xquery_services.vec[ii]) {
-                iauth_xquery_services.vec[ii] = srv;
-                break;
-            }
-        }
-
-        /* If there are no empty slots, append it. */
-        if (ii == iauth_xquery_services.used)
+        /* Use the empty slot, or append if there was none. */
+        if (ii < iauth_xquery_services.used)
+            iauth_xquery_services.vec[ii] = srv;
+        else
             iauth_xquery_services_append(&iauth_xquery_services, srv);
     }
 
